@@ -70,8 +70,10 @@ def report(ctx, results: List[Result], prop_rule: str, prefixes=(), cats=(), com
     n = 0
     for r in results:
         mine = any(r.rule.startswith(p) for p in prefixes) or (r.cat in cats and not r.rule.startswith("X."))
-        if r.rule.startswith("X."):
+        if r.rule.startswith("X.compiles"):
             mine = bool(set(r.tags) & set(compile_tags))
+        elif r.rule.startswith("X."):
+            mine = any(r.rule.startswith(p) for p in prefixes)
         if not mine:
             continue
         n += 1
